@@ -138,6 +138,14 @@ def run_impl(inst, d, order_seed, seed=11):
     def load_wrapper(*a, **kw):
         seen["outlier_prob"] = kw.get("outlier_prob")
         seen["data"], seen["samples"] = real_load(*a, **kw)
+        return seen["data"], seen["samples"]
+
+    real_chain = prun.run_phyclone_chain
+
+    def chain_wrapper(*a, **kw):
+        # what run() hands to the chain (positional argument 9 of run_phyclone_chain is the outlier probability that
+        # switches outlier proposals and the outlier option of the data-point sampler on)
+        seen["chain_outlier_prob"] = a[9] if len(a) > 9 else kw.get("outlier_prob")
         raise _Stop()
 
     def trunc_wrapper(df):
@@ -146,6 +154,7 @@ def run_impl(inst, d, order_seed, seed=11):
         return t
 
     prun.load_data = load_wrapper
+    prun.run_phyclone_chain = chain_wrapper
     cop._define_truncal_cluster = trunc_wrapper
     res = {"rejected": False}
     try:
@@ -163,12 +172,14 @@ def run_impl(inst, d, order_seed, seed=11):
                 res["error"] = "%s: %s" % (type(ex).__name__, ex)
     finally:
         prun.load_data = real_load
+        prun.run_phyclone_chain = real_chain
         cop._define_truncal_cluster = real_trunc
         for f in (dp, cp):
             os.remove(f)
     if res["rejected"]:
         return res
     res["outlier_prob"] = seen["outlier_prob"]
+    res["chain_outlier_prob"] = seen.get("chain_outlier_prob")
     res["truncal"] = seen.get("truncal")
     res["points"] = [(dpnt.name, float(dpnt.outlier_prob), float(dpnt.outlier_prob_not)) for dpnt in seen["data"]]
     res["values"] = [[float(x) for x in dpnt.value.ravel()[:6]] for dpnt in seen["data"]]
@@ -276,7 +287,7 @@ def borderline_instances3(first_id):
     return out
 
 
-def bind(ck, prop, n_inst, orders, seed, want_spec=True, want_order=True, want_terms=True, spec_verdict=False, corrupt=None):
+def bind(ck, prop, n_inst, orders, seed, want_spec=True, want_order=True, want_terms=True, spec_verdict=False, want_wiring=False, corrupt=None):
     """Verdicts: (want_terms) every clustered data point's prior terms are size x log p / size x log(1-p) for one of the
     probabilities the input supplies; (want_order) identical loaded data under every row order of the two files.
     want_spec: the outcome must be a final state of LossProb.tla for the instance.  With spec_verdict (C05: "the
@@ -321,6 +332,15 @@ def bind(ck, prop, n_inst, orders, seed, want_spec=True, want_order=True, want_t
                 continue
             if impl.get("rejected"):
                 continue
+            if want_wiring and impl.get("chain_outlier_prob") is not None:
+                # the run command must build its samplers with outlier proposals ON whenever the loaded data carry outlier
+                # priors (LossProb.tla: ModellingOn) - otherwise the update can never reach trees the posterior gives mass to
+                has_prior = any(a != 0 or b != 0 for _, a, b in impl["points"])
+                if has_prior and not (impl["chain_outlier_prob"] > 0):
+                    ck.violation("%s|run_wiring|outliers_off_although_priors_loaded" % prop, "run() hands outlier probability %r to the chain (outlier proposals off) although the loaded data points carry outlier priors %s (options %s)" % (
+                        impl["chain_outlier_prob"], [(n_, round(a, 4)) for n_, a, _ in impl["points"]], json.dumps(inst["opt"], sort_keys=True)), dict(rep, order=order))
+                elif not has_prior and impl["chain_outlier_prob"] > 0:
+                    ck.model_drift("run() switches outlier proposals on (%r) although no loaded data point carries an outlier prior (options %s)" % (impl["chain_outlier_prob"], json.dumps(inst["opt"], sort_keys=True)))
             if want_terms:
                 # the property: the two prior terms are size x log p and size x log(1-p) for ONE probability p that the input supplies
                 cands = {0.0, GLOBAL_P, DEFAULT_P, LOW_P, HIGH_P}
